@@ -234,6 +234,8 @@ func (bs *blockState) applyContractX(spec *FuncSpec, key string, args []Val, ins
 	for _, en := range spec.Ensures {
 		bs.assumeG(post.boolT(en.Expr))
 	}
+	// reachability canary: the callee's postcondition must not contradict what is known here
+	e.items = append(e.items, Item{Kind: IAssert, Guard: bs.g, Term: "false", Name: fmt.Sprintf("%s#canary.after.%s", e.key, site), Canary: true, Class: "canary"})
 	bs.ghostAt("call "+short+fmt.Sprintf("#%d", e.callOrd[short])+" after", ins, post.Vars)
 	return res
 }
@@ -326,6 +328,37 @@ func (bs *blockState) havocModifies(spec *FuncSpec, vars map[string]Val, ins ssa
 
 // resolveModifies maps a modifies item to (state key, sort) pairs:
 // "bytes" (all []byte contents), "pkg.Type.field", "ghost.name".
+// resolveHeapItem: like resolveModifies, plus "elems:pkg.Type.field" (element memory of a slice field).
+func (e *Enc) resolveHeapItem(m string) [][2]string {
+	if strings.HasPrefix(m, "elems:") {
+		parts := strings.Split(strings.TrimPrefix(m, "elems:"), ".")
+		if len(parts) == 3 {
+			for _, p := range e.W.Prog.AllPackages() {
+				if p.Pkg.Name() != parts[0] {
+					continue
+				}
+				if tn, ok := p.Pkg.Scope().Lookup(parts[1]).(*types.TypeName); ok {
+					if st, ok := tn.Type().Underlying().(*types.Struct); ok {
+						for i := 0; i < st.NumFields(); i++ {
+							if st.Field(i).Name() == parts[2] {
+								if sl, ok := st.Field(i).Type().Underlying().(*types.Slice); ok {
+									var out [][2]string
+									for j, so := range flatten(sl.Elem()) {
+										out = append(out, [2]string{elemKey(sl.Elem(), j), "(Array Int (Array Int " + so + "))"})
+									}
+									return out
+								}
+							}
+						}
+					}
+				}
+			}
+		}
+		panic(contractMismatch{"cannot resolve heap item " + m})
+	}
+	return e.resolveModifies(m)
+}
+
 func (e *Enc) resolveModifies(m string) [][2]string {
 	if m == "bytes" {
 		return [][2]string{{elemKey(tByte, 0), "(Array Int (Array Int Int))"}}
